@@ -21,11 +21,12 @@ MODULE = "Sqfs.Props.C03"
 REQUIRED = ["Sqfs.C03.conseq_count_ok", "Sqfs.C03.dir_end_headers_ok", "Sqfs.C03.add_entry_name_fits",
             "Sqfs.C03.meta_block_le_8k", "Sqfs.C03.meta_stored_le_unpacked", "Sqfs.C03.data_block_size_rule",
             "Sqfs.C03.id_count_fits", "Sqfs.C03.finish_order", "Sqfs.C03.pad_multiple",
-            "Sqfs.C03.inode_numbers_bijective", "Sqfs.C03.children_before_parent"]
+            "Sqfs.C03.inode_numbers_bijective", "Sqfs.C03.children_before_parent", "Sqfs.C03.dir_index_count_exact"]
 
 K_D11 = "D11:lz4-block-not-smaller"
 K_D8 = "D8:id-count-wraps"
 K_D18 = "D18:dir-name-too-long"
+K_D25 = "D25:dir-index-count-wraps"
 
 NOIDX = 0xFFFFFFFF
 
@@ -123,6 +124,10 @@ def gen_ops(ctx):
     for ln in ([257, 300] if q else [257, 258, 300, 1000, 65535, 65536, 65537]):
         e = (gen_name(rng, ln), 7, 0x10000, 0o100644)
         add("dirw 0 0 %d 0 %s" % (NOIDX, " ".join(tok_dirw(x) for x in [base[0], e, base[1]])), op="dirw", ents=None, off0=0, longname=ln)
+    # 65536 headers (entries alternate between two inode blocks): the u16 index count of the extended directory inode
+    for n in (65535, 65536, 65541):
+        ents = [(b"n%07d" % i, 1 + (i % 2), ((i % 2) * 8194) << 16, 0o100644) for i in range(n)]
+        add("dirw 0 0 %d 0 %s" % (NOIDX, " ".join(tok_dirw(e) for e in ents)), op="dirw", ents=ents, off0=0, manyhdr=n)
     # meta writer
     for codec in ("raw", "toy", "grow"):
         pats = [[], [1], [8191], [8192], [8193], [8192, 8192], [16384], [3 * 8192 + 5], [5000, 5000], [1] * 40,
@@ -235,6 +240,12 @@ def monitor_dirw(m, ans):
         isize = int(f[k + 2])
         if isize != size + 3:
             bad.append("directory inode announces size %d for a listing of %d bytes (+3)" % (isize, size))
+        if f[k] == "inode=ext":
+            n_ann = int(next(x for x in f if x.startswith("n=")).split("=")[1])
+            idx = next(x for x in f if x.startswith("idx=")).split("=", 1)[1]
+            n_idx = 0 if idx == "-" else idx.count(",") + 1
+            if n_ann != n_idx:
+                bad.append("INDEXCOUNT extended directory inode announces %d index entries, %d follow it" % (n_ann, n_idx))
     except (StopIteration, ValueError, IndexError):
         bad.append("inode fields missing")
     return bad, toolong
@@ -493,6 +504,15 @@ def pieces(ctx, harness):
             bad = MONITORS[op](m, a) if op in MONITORS else []
             if a not in ("0", "-") and not a.startswith("err"):
                 nontrivial.add(vlib.sha(l)[:12])
+        if op == "dirw" and bad and all(x.startswith("INDEXCOUNT") for x in bad):
+            old = ctx.driver(["c03", "ops"], l.replace("dirw ", "dirwold ", 1) + "\n")[0]
+            what = "sqfs_dir_writer_create_inode: %s (a directory with more than 65535 headers; the u16 index count wraps)" % bad[0][11:]
+            if old == a:
+                report(ctx, K_D25, what, {"kind": "ops", "line": "dirw with %s alternating entries (see gen_ops)" % m.get("manyhdr"), "impl": a[-120:]})
+            else:
+                report(ctx, "dirw-index:" + vlib.sha(l)[:10], what + " and differs from the witness model", {"kind": "ops", "line": l[:300] + "..."})
+            disagreements += 1
+            continue
         if bad:
             disagreements += 1
             report(ctx, "piece:%s:%s" % (op, vlib.sha(l)[:10]), "real %s violates its specification: %s" % (op, "; ".join(bad)[:300]),
@@ -862,6 +882,9 @@ def classify(ctx, job, viols, comp):
         n += 1
         code = v.split()[1]
         replay = {"kind": "image", "job": job["desc"], "violation": v[:400]}
+        if job["desc"]["shape"]["kind"] == "manyheaders" and code in ("inode-scan", "inode-count", "inode-misaligned", "inode-unreachable", "dir-index-count"):
+            report(ctx, K_D25, "a directory with more than 65535 headers: exit 0 and an inode table that cannot be parsed: " + v[5:200], replay)
+            continue
         if wrapped:
             report(ctx, K_D8, "65536 distinct ids: exit 0 and an image whose id_count is 0: " + v[5:200], replay)
             continue
@@ -905,6 +928,7 @@ def image_jobs(ctx):
                 job({"kind": "mixed", "n": 60}, comp, bs, rng.choice([[], ["-e"], ["-T"], ["-e", "-T"], ["-j", "1"], ["-j", "6", "-Q", "3"]]))
                 job({"kind": "mixed", "n": 40}, comp, bs, rng.choice([[], ["-e"], ["-T"]]), tool="tar2sqfs")
         job({"kind": "ids", "n": 65535}, "gzip", 4096, [])
+        job({"kind": "manyheaders", "n": 65540}, "gzip", 4096, [], tool="tar2sqfs")
         job({"kind": "ids", "n": 2049, "base": 70000}, "lz4", 4096, ["-e"])
         job({"kind": "bigdir", "n": 40000, "namelen": 6, "empty": True}, "zstd", 4096, ["-e"])
         # D8 at tool level: 65536 distinct ids (about 100 s under ASan: the id search is quadratic), thorough only;
@@ -924,7 +948,23 @@ def run_image_job(ctx, tools, unz, job, idx):
     img = wd / "out.sqfs"
     env = ctx.san_env()
     res = {"job": job, "viol": [], "tree_bad": [], "rc": None, "stderr": "", "nodes": len(t.nodes), "summary": ""}
-    if d["shape"]["kind"] == "packdir":
+    if d["shape"]["kind"] == "manyheaders":
+        # 65540 hard links alternating between two files whose inodes live in different metadata blocks: one header each
+        t = None
+        wd.mkdir(parents=True, exist_ok=True)
+        with tarfile.open(wd / "in.tar", "w", format=tarfile.GNU_FORMAT) as tf:
+            def tadd(name, typ=tarfile.REGTYPE, link="", data=b""):
+                ti = tarfile.TarInfo(name); ti.type = typ; ti.linkname = link; ti.size = len(data); ti.mode = 0o644
+                tf.addfile(ti, io.BytesIO(data) if data else None)
+            tadd("a/f0", data=b"x")
+            for i in range(600):
+                tadd("m/p%04d" % i, typ=tarfile.FIFOTYPE)
+            tadd("y/f1", data=b"y")
+            for i in range(d["shape"]["n"]):
+                tadd("z/l%06d" % i, typ=tarfile.LNKTYPE, link="a/f0" if i % 2 == 0 else "y/f1")
+        with open(wd / "in.tar", "rb") as f:
+            r = shx([str(tools["tar2sqfs"]), "-q", "-f", "-c", d["comp"], "-b", str(d["bs"])] + d["opts"] + [str(img)], stdin=f, env=env, timeout=1500)
+    elif d["shape"]["kind"] == "packdir":
         # a real directory with hard links (dir scan + hard link detection + reorder_hard_links)
         root = wd / "root"
         (root / "a" / "b").mkdir(parents=True)
@@ -955,7 +995,7 @@ def run_image_job(ctx, tools, unz, job, idx):
         res["summary"] = next((v for v in val if v.startswith("summary")), "")
         if not job.get("ids65536") and t is not None:
             res["tree_bad"] = compare_tree(t, par, via_tar=(d["tool"] == "tar2sqfs"))
-        if t is None:
+        if t is None and d["shape"]["kind"] == "packdir":
             # hard links must show up as several paths sharing one inode whose link count is the number of paths
             inos = {}
             for l in par:
@@ -980,7 +1020,7 @@ def cross_rdsquashfs(ctx, tools, img, par):
     theirs = set()
     for l in r.stdout.splitlines():
         f = l.split(" ")
-        if len(f) >= 5 and f[0] in ("dir", "file", "slink", "nod", "pipe", "sock") and not f[1].startswith('"'):
+        if len(f) >= 5 and f[0] in ("dir", "file", "slink", "nod", "pipe", "sock") and not f[1].startswith('"') and f[1] != "/":
             theirs.add((f[0] if f[0] != "nod" else "nod", "/" + f[1], int(f[2], 8), int(f[3]), int(f[4])))
     ours = set()
     kind = {"dir": "dir", "file": "file", "slink": "slink", "cdev": "nod", "bdev": "nod", "fifo": "pipe", "sock": "sock"}
